@@ -51,7 +51,8 @@ def make_oracle(tier, with_defs=False):
 
     def oracle(space, case, text, width, sem):
         if with_defs:
-            text = text + "\n[r]: <u v> \"it's t...\"\n\n[^n]: fn\n"
+            # (a second definition with the same target stands before the one the tokens use: the label a link uses is part of it)
+            text = text + "\n[q]: <u v> \"it's t...\"\n[r]: <u v> \"it's t...\"\n\n[^n]: fn\n"
         sin = spans.spans(text)
         viol, tags = [], []
         seen = set()
@@ -76,8 +77,10 @@ def make_oracle(tier, with_defs=False):
 
 CODE_LINES = ["x", "", "  ", "```", "````", "~~~", " ```", "   ````", "> x", "- x", "    x", "\tx", "x  ", "{% t %}", '"q"...', "# h", "`", "<!--",
               # appended later: fence runs indented by 4-6 columns (not closers as written; closers once 1-3 columns of indent are removed)
-              "    ```", "      ```", "     ~~~"]
-INFOS = ["", "py", "py x=1", "~x", "{.a}"]
+              "    ```", "      ```", "     ~~~",
+              # appended later: characters that str.splitlines() treats as line ends but Markdown does not
+              "a\u2028b", "c\x0bd\x1ce\u0085f"]
+INFOS = ["", "py", "py x=1", "~x", "{.a}", "a\\*b c\\_d"]   # (the last one appended later: backslash escapes in the info string)
 
 
 class CodeBlocks(Space):
